@@ -2,8 +2,9 @@
    Statements only; proofs in Lemmas/Container.v.  Model: Model/Container.v
    ([step] = required behaviour; [step_defect] = unrepaired extend / insert /
    argvals_stand, finding F7).  Discrete: closed under the global context. *)
-From Coq Require Import List Bool ZArith.
-From FDAV Require Import Model.Container Lemmas.Container.
+From Coq Require Import List Bool ZArith QArith.
+Local Close Scope Q_scope.
+From FDAV Require Import Model.Container Lemmas.Container Model.Normalize Lemmas.Normalize.
 Import ListNotations.
 
 (* an operation that does not succeed leaves the object as it was *)
@@ -79,3 +80,27 @@ Example C11_example :
   = [Ok; Ok; ValueErr; LookupErr; ValueErr; Ok; Ok]
   /\ n_obs (run init [Append c1; Extend [c2]; Reverse; Index (IxSlice None (Some 2%Z) None)]) = 2%nat.
 Proof. vm_compute. split; reflexivity. Qed.
+
+(* ---- "standardised sampling points track the sampling points", value level (Model/Normalize.v: the points of every
+   observation mapped affinely with the GLOBAL minimum and maximum of the object, as IrregularArgvals.normalization) ----
+   one standardised observation per observation, with as many points (unless the range is a single point) *)
+Theorem C11_norm_irr_shape : forall obs,
+  length (norm_irr obs) = length obs /\
+  (Qeq_bool (gmin obs) (gmax obs) = false -> map (@length Q) (norm_irr obs) = map (@length Q) obs).
+Proof. intro obs. exact (conj (norm_irr_length obs) (norm_irr_npoints obs)). Qed.
+Print Assumptions C11_norm_irr_shape.
+(* a subset with the parent's range keeps the parent's standardisation ... *)
+Theorem C11_norm_select_same_range : forall idx obs,
+  Forall (fun i => (i < length obs)%nat) idx ->
+  gmin (select idx obs) = gmin obs -> gmax (select idx obs) = gmax obs ->
+  norm_irr (select idx obs) = select idx (norm_irr obs).
+Proof. exact norm_select_same_range. Qed.
+Print Assumptions C11_norm_select_same_range.
+(* ... any other subset does NOT: a derived object must standardise ITS OWN points (copying the parent's is a defect) *)
+Theorem C11_norm_select_refuted :
+  (norm_irr (select [1%nat] c11_parent) = [[0; 1 # 2; 1]] /\
+   select [1%nat] (norm_irr c11_parent) = [[1 # 4; 1 # 2; 3 # 4]] /\
+   norm_irr (select [1%nat] c11_parent) <> select [1%nat] (norm_irr c11_parent) /\
+   norm_irr (select [2%nat; 0%nat] c11_parent) = select [2%nat; 0%nat] (norm_irr c11_parent))%Q.
+Proof. exact norm_select_refuted. Qed.
+Print Assumptions C11_norm_select_refuted.
